@@ -39,6 +39,7 @@ def run(cx, chk):
     chk.rule("C14.R2", "countdown: Some paths decrement len by exactly 1 under len != 0; None paths store nothing; size_hint/count exact; ExactSize+Fused for all")
     chk.rule("C14.R3", "constructors set len/ptr/end from map.len()/(*head).next/(*tail).prev; per-list accessors delegate to the list their name says")
     chk.rule("C14.R5", "the countdown the iterators start from (map.len()) equals the number of linked nodes whenever user code can observe the cache: at every eviction-callback site every node is linked iff indexed")
+    chk.rule("C14.R6", "the order the iterators expose is recency order: every use operation of RawLRU moves the hit node to the head (detach then attach), and prev/next are stored only by the link primitives")
     chk.rule("C14.R4", "Keys*/Values* project the key/val component of the wrapped iterator, same direction")
     for cfg, F in cx.cfgs():
         iters = api.iterator_heads(F)
@@ -60,6 +61,7 @@ def run(cx, chk):
         constructors(cx, chk, cfg, F)
         accessors(cx, chk, cfg, F)
         countdown_source(cx, chk, cfg, F)
+        recency_order(cx, chk, cfg, F)
 
 
 def impl_method(F, head, trait, method):
@@ -268,3 +270,47 @@ def countdown_source(cx, chk, cfg, F):
                                       % (fmt_val(node), L, I), g["span"]["file"], e.get("ln"), g["q"], ["root " + f["q"]], cfg)
     if not bad:
         chk.ob("C14.R5", cfg + ":callback-sites", "list and index agree at %d callback site visits" % n)
+
+
+class _Remap:
+    """reports another rule module's instances under a C14 rule id (the other rule id stays in the site key)"""
+
+    def __init__(self, chk, rid, only):
+        self.chk, self.rid, self.only = chk, rid, only
+
+    def rule(self, *a):
+        pass
+
+    def ob(self, rule, key, how="ok", sample=None):
+        if rule.startswith(self.only):
+            self.chk.ob(self.rid, "%s|%s" % (rule, key), how)
+
+    def violation(self, rule, key, msg, *a, **k):
+        if rule.startswith(self.only):
+            self.chk.violation(self.rid, "%s|%s" % (rule, key), msg, *a, **k)
+
+    def undecide(self, rule, key, why):
+        self.chk.undecide(self.rid, key, why)
+
+    def floor(self, *a):
+        self.chk.floor(*a)
+
+
+def recency_order(cx, chk, cfg, F):
+    """'most-recent-first' is list order only if the list is kept in recency order: the two structural halves of that, decided by the
+    engines of C06.R1 (use operations refresh) and C03.R4 (who may store a link)"""
+    from . import c06
+    from .lib import ntrun
+    c06.use_ops(cx, _Remap(chk, "C14.R6", ("C06.R1",)), cfg, F)
+    n = bad = 0
+    for f, p, w in ntrun.walk(cx, cfg):
+        n += 1
+        for fd in w.findings:
+            if fd["rule"] == "C03.R4" and "prev/next" in fd["msg"]:
+                bad += 1
+                g = F.fns.get(fd["fn"]) or f
+                chk.violation("C14.R6", "link-store|%s|%s" % (g["q"], ntrun.norm(fd["msg"])[:120]),
+                              "%s (reached from %s): the iterators follow these links, and only the link primitives keep them a consistent doubly linked list" % (fd["msg"], f["q"]),
+                              g["span"]["file"], fd["ln"], g["q"], ["root " + f["q"]], cfg)
+    if not bad:
+        chk.ob("C14.R6", cfg + ":link-stores", "no store to prev/next outside the link primitives on %d paths" % n)
